@@ -42,7 +42,7 @@ Code it is anchored in: {anch}
 files only) that
 
 1. still compiles (`go build ./...`),
-2. still passes the whole existing test suite (`go test -vet=off -count=1 ./...`; `TestTryWriteCSV` in pkg/csv
+2. still passes the whole existing test suite (`go test -vet=off -count=1 ./...`; `TestTryWriteCSV` in cmd/helpers
    fails on the clean tree already - ignore that one),
 3. makes the property above FALSE for some input / schedule / history - a real violation of a sentence of the
    property text, not a cosmetic difference and not a removal of the feature,
